@@ -180,6 +180,28 @@ def check_trapping(case):
     expect_top(text, r, want, 'x=%s -> %r;' % (X, xv))
 
 
+def check_code_text(case):
+    """a text that merely spells an error code is text, not an error"""
+    code, how = case
+    env = make_env()
+    env.P.set_variable('v_t', code)
+    env.cells['T1'] = code
+    X = {'lit': '"%s"' % code, 'var': 'v_t', 'cell': 'T1', 'concat': '("%s"&"%s")' % (code[:2], code[2:]), 'call': 'CONCATENATE("%s","%s")' % (code[:1], code[1:])}[how]
+    table = [('ISERROR(%s)' % X, False), ('ISERR(%s)' % X, False), ('ISNA(%s)' % X, False), ('IFERROR(%s,42)' % X, code), ('IFNA(%s,42)' % X, code), ('ERROR.TYPE(%s)' % X, Err('#N/A')),
+             ('OR(ISERR(%s),ISNA(%s))=ISERROR(%s)' % (X, X, X), True), ('ISTEXT(%s)' % X, True), ('%s&"a"' % X, code + 'a'), ('%s=%s' % (X, X), True)]
+    for text, want in table:
+        expect_top(text, env.parse(text), want, 'text %r spelling an error code (%s):' % (code, how))
+
+
+def enum_code_text(tier, shard, nshards):
+    i = 0
+    for code in CODES8 + ['#ERROR!']:
+        for how in ('lit', 'var', 'cell', 'concat', 'call'):
+            i += 1
+            if i % nshards == shard:
+                yield [code, how]
+
+
 def enum_matrix(tier, shard, nshards):
     """every code x every route, bare and under each trapping function (exhaustive)"""
     i = 0
@@ -210,6 +232,7 @@ def check_matrix(node):
     X, code = node[1], node[2]
     na = code == '#N/A'
     table = [(X, Err(code)), ('%s+1' % X, Err(code)), ('1*%s' % X, Err(code)), ('%s=1' % X, Err(code)), ('1<%s' % X, Err(code)), ('%s<>%s' % (X, X), Err(code)),
+             ('%s>=1' % X, Err(code)), ('1<=%s' % X, Err(code)), ('%s>%s' % (X, X), Err(code)), ('IFERROR(%s>=0,42)' % X, 42), ('ISERROR(1<=%s)' % X, True),
              ('%s&"a"' % X, Err(code)), ('"a"&%s' % X, Err(code)), ('-%s' % X, Err(code)), ('(%s)' % X, Err(code)),
              ('IFERROR(%s,42)' % X, 42), ('IFNA(%s,42)' % X, 42 if na else Err(code)), ('ISERROR(%s)' % X, True), ('ISERR(%s)' % X, not na), ('ISNA(%s)' % X, na),
              ('ERROR.TYPE(%s)' % X, TYPE_NO[code]), ('IFERROR(%s+1,42)' % X, 42), ('{1,2}+%s' % X, Err(code)), ('%s*{1,2}' % X, Err(code)), ('IFERROR({5}-%s,42)' % X, 42), ('ISERROR(%s/v_arr)' % X, True), ('IFERROR(-%s,42)' % X, 42), ('IFERROR(%s=1,42)' % X, 42), ('IFERROR(%s&"a",42)' % X, 42),
@@ -270,8 +293,10 @@ def depth_of_error(t, d=0):
 
 
 LAWS = [
-    Law('matrix', check_matrix, enumerate=enum_matrix, exhaustive=True, shards=(8, 8), weight=lambda n: 26 if n[0] == 'src' else 8,
+    Law('matrix', check_matrix, enumerate=enum_matrix, exhaustive=True, shards=(8, 8), weight=lambda n: 31 if n[0] == 'src' else 8,
         rule='every error code x every production route (variable, cell, host function returning / raising, SUM / MAX / PRODUCT raising, nested call; operator- and builtin-made ones), bare, under each operator kind, and under each trapping function; all 9 error literals'),
+    Law('code_spelling_text', check_code_text, enumerate=enum_code_text, exhaustive=True, shards=(4, 4), weight=lambda c: 10,
+        rule='each of the nine codes as a *text* (literal, variable, cell, produced by & and by CONCATENATE): ISERROR/ISERR/ISNA are FALSE, IFERROR/IFNA keep it, ERROR.TYPE is #N/A, it joins and compares as text'),
     Law('propagation', check_propagation, strategy=prop_case(), classes=prop_classes, key=prop_key, quick=4000, thorough=200000, shards=(8, 16),
         required=('under-comparison', 'under-amp', 'under-neg', 'two-codes', 'array-operand', 'route:literal', 'route:host-raises', 'route:SUM-raises', 'route:operator', 'route:var'),
         nontrivial=lambda c: depth_of_error(c['tree']) >= 2 or 'two-codes' in prop_classes(c),
